@@ -492,6 +492,10 @@ def eval_seq(ctx, vcorr, seq_lines, cmp_spec=True, time_scale=None, timeout=None
     """Run one sequence on impl and model. Returns (index of first divergence | None, impl, model, spec)."""
     env = GOENV if time_scale is None else dict(GOENV, VERIF_TIME_SCALE=str(time_scale))
     impl, r1 = run_lines([vcorr, "run"], seq_lines, env=env, timeout=timeout)
+    err = getattr(r1, "stderr", "") or ""
+    # a Go runtime abort (concurrent map access, stack overflow, deadlock) cannot be recovered by the harness: the process
+    # is gone and with it its buffered answers; what it printed is kept for the replay
+    ctx.last_abort = err[-3000:] if ("fatal error:" in err or "panic:" in err) else ""
     mod, r2 = run_lines(model_bin(), seq_lines)
     for i in range(len(seq_lines)):
         a = impl[i] if i < len(impl) else "<no-output>"
@@ -703,6 +707,8 @@ def correspondence(ctx, cfg_comp, label=None):
             payload = {"component": label, "generator": name, "ops": small,
                        "impl": im[:len(small)], "model": mo[:len(small)], "spec": sp[:len(small)],
                        "first_divergence": d, "original_divergence": orig}
+            if getattr(ctx, "last_abort", ""):
+                payload["process_aborted"] = ctx.last_abort
             ctx.problems.append(("divergence", "implementation and model disagree on a %s sequence" % label, payload))
         if bad:
             break
